@@ -1,4 +1,5 @@
-(** C10 — algebraic identities the cached-RBF fast path relies on (mathcomp, axiom-free). *)
+(** C10 — algebraic identities the cached-RBF fast path relies on (mathcomp, axiom-free).
+    Over any commutative ring: they hold for the reals and are what the binary64 code approximates. *)
 From mathcomp Require Import all_ssreflect all_algebra.
 From Elfi Require Import Num.GpMx.
 Set Implicit Arguments.
@@ -13,16 +14,99 @@ Variables n d : nat.
 Implicit Types (x y : 'rV[R]_d) (X : 'M[R]_(n, d)) (k h : 'rV[R]_n) (W L Linv : 'M[R]_n).
 
 Lemma sqnormE x : sqnorm x = \sum_j x 0 j * x 0 j.
-Proof. by rewrite /sqnorm mxE; apply: eq_bigr => j _; rewrite mxE. Qed.
+Proof. rewrite /sqnorm mxE. apply: eq_bigr => j _. by rewrite mxE. Qed.
 
 Lemma dotE x y : dot x y = \sum_j x 0 j * y 0 j.
-Proof. by rewrite /dot mxE; apply: eq_bigr => j _; rewrite mxE. Qed.
+Proof. rewrite /dot mxE. apply: eq_bigr => j _. by rewrite mxE. Qed.
 
 (** |x - y|^2 = |x|^2 + |y|^2 - 2 x.y *)
 Lemma sqnorm_sub x y : sqnorm (x - y) = sqnorm x + sqnorm y - 2%:R * dot x y.
 Proof.
-rewrite !sqnormE dotE mulr_sumr -!big_split /=; apply: eq_bigr => j _.
-rewrite !mxE mulrBl !mulrBr mulr2n mulrDl mul1r.
-rewrite (mulrC (y 0 j) (x 0 j)); ring.
+rewrite !sqnormE dotE mulr_sumr -big_split /= -sumrB.
+apply: eq_bigr => j _.
+rewrite !mxE.
+set a := x 0 j; set b := y 0 j.
+rewrite mulrBl !mulrBr (mulrC b a) opprB addrA mulr2n mulrDl mul1r opprD addrA.
+by congr (_ - _); rewrite addrAC.
+Qed.
+
+(** the coded row of squared distances is the row of |x - X_i|^2 *)
+Lemma r2_fastE x X : r2_fast x X = r2_def x X.
+Proof.
+apply/rowP => i; rewrite !mxE sqnorm_sub; congr (_ - _ * _).
+rewrite /dot !mxE; apply: eq_bigr => j _; by rewrite !mxE.
+Qed.
+
+(** predict: kx . (W . kx^T) is the quadratic form kx W kx^T *)
+Lemma var_fastE (kss noise : R) k W : var_fast kss noise k W = var_W kss noise k W.
+Proof. by rewrite /var_fast /var_W mulmxA. Qed.
+
+(** with W = L^-T L^-1 (GPy: woodbury_inv = (L L^T)^-1, L = woodbury_chol) the subtracted term is
+    |L^-1 kx^T|^2: the textbook GP variance  k** - v^T v + sigma2,  v = L^-1 k *)
+Lemma var_W_chol (kss noise : R) k W Linv :
+  W = Linv^T *m Linv -> var_W kss noise k W = var_chol kss noise k Linv.
+Proof.
+move=> ->; rewrite /var_W /var_chol; congr (_ - _ + _).
+by rewrite trmx_mul trmxK !mulmxA.
+Qed.
+
+Lemma var_fast_chol (kss noise : R) k W Linv :
+  W = Linv^T *m Linv -> var_fast kss noise k W = var_chol kss noise k Linv.
+Proof. by move=> HW; rewrite var_fastE (var_W_chol _ _ _ HW). Qed.
+
+(** W = L^-T L^-1 is symmetric *)
+Lemma W_sym W Linv : W = Linv^T *m Linv -> W^T = W.
+Proof. by move=> ->; rewrite trmx_mul trmxK. Qed.
+
+(** the quadratic form k W k^T: exact second-order expansion; for symmetric W the first-order
+    part in the increment h is 2 h W k^T -- the differential the variance gradient is built from *)
+Lemma qform_expand W k h :
+  W^T = W ->
+  qform W (k + h) = qform W k + 2%:R *: (h *m W *m k^T) + qform W h.
+Proof.
+move=> Wsym; rewrite /qform linearD /= !mulmxDl !mulmxDr.
+have tr11 (M : 'M[R]_1) : M^T = M by rewrite [M]mx11_scalar tr_scalar_mx.
+have -> : k *m W *m h^T = h *m W *m k^T.
+  by rewrite -[LHS]tr11 !trmx_mul trmxK Wsym mulmxA.
+by rewrite scaler_nat mulr2n !addrA.
+Qed.
+
+(** mean: mu = kx . alpha is linear in kx, so its differential along dk is dk . alpha; the coded
+    (dkdx^T . woodbury)^T is alpha^T dkdx *)
+Lemma mean_fast_linear k h (alpha : 'cV[R]_n) :
+  mean_fast (k + h) alpha = mean_fast k alpha + mean_fast h alpha.
+Proof. by rewrite /mean_fast mulmxDl. Qed.
+
+Lemma gradmean_fastE (dk : 'M[R]_(n, d)) (alpha : 'cV[R]_n) :
+  gradmean_fast dk alpha = gradmean_def dk alpha.
+Proof. by rewrite /gradmean_fast /gradmean_def trmx_mul trmxK. Qed.
+
+(** predictive_gradients: with v and dv the solutions of the two triangular systems
+    L v = k^T (+ bias, already in k here) and L dv = dk, and W = L^-T L^-1,
+    the coded  -2 (dv^T v)^T  equals the definition  -2 k W dk *)
+Lemma gradvar_fastE L Linv W k (dk : 'M[R]_(n, d)) (v : 'cV[R]_n) (dv : 'M[R]_(n, d)) :
+  Linv *m L = 1%:M ->
+  L *m v = k^T -> L *m dv = dk ->
+  W = Linv^T *m Linv ->
+  gradvar_fast v dv = gradvar_def k W dk.
+Proof.
+move=> LinvL Hv Hdv ->; rewrite /gradvar_fast /gradvar_def; congr (_ *: _).
+have -> : v = Linv *m k^T by rewrite -Hv mulmxA LinvL mul1mx.
+have -> : dv = Linv *m dk by rewrite -Hdv mulmxA LinvL mul1mx.
+by rewrite !trmx_mul !trmxK !mulmxA.
+Qed.
+
+(** ... and that definition is the first-order part of the variance: for symmetric W,
+    qform W (k + h) - qform W k = 2 h W k^T + (second order), and column j of
+    [gradvar_def k W dk] is  -2 k W dk_j = -2 dk_j^T W k^T *)
+Lemma gradvar_def_col W k (dk : 'M[R]_(n, d)) j :
+  W^T = W ->
+  (gradvar_def k W dk) 0 j = (- 2%:R *: ((col j dk)^T *m W *m k^T)) 0 0.
+Proof.
+move=> Wsym.
+have tr11 (M : 'M[R]_1) : M^T = M by rewrite [M]mx11_scalar tr_scalar_mx.
+rewrite /gradvar_def -[(col j dk)^T *m W *m k^T]tr11 !trmx_mul !trmxK Wsym mulmxA.
+rewrite !mxE; congr (_ * _).
+by apply: eq_bigr => i _; rewrite !mxE.
 Qed.
 End Identities.
